@@ -129,6 +129,37 @@ def unbound_key_commitments(ctx, lines, limit=2, slots=range(15)):
     return out
 
 
+def uncovered_evaluations(ctx, rng, n_circuits=1):
+    """Forgery against a batched opening that does not cover one of the carried evaluations. The LYING copy of the Lean
+    specification prover (lean/Plonk/Driver/Forge.lean, driver command `provelie`) shifts one evaluation (a_w, b_w, d_w, q_c,
+    q_l or q_r) by d and leaves the polynomial it belongs to out of the aggregated opening witness (keeping the other entries'
+    powers of the aggregation challenge, or moving the later ones up). In a circuit without range / logic / curve rows these
+    evaluations do not enter the linearisation, so a verifier that forgot exactly this evaluation accepts the proof; a verifier
+    whose openings cover every evaluation rejects it. Also one honest control per circuit (lie of 0)."""
+    from props.pcommon import prove_line, srs_draws, draw_hex
+    out = []
+    srs = srs_draws(rng)
+    progs = ["pub 5;w 7;gadd 0 1 1 0 3 - $0 $1 #0;pub 9;bool #1",
+             "w 3;w 4;gmul 1 0 0 0 0 - $0 $1 #0;w 1;bool $3;pub c"]
+    reqs, tags = [], []
+    for src in progs[:n_circuits]:
+        draws = [draw_hex(rng) for _ in range(14)]
+        pl = prove_line(srs, 32, b"plonk", draws, 3, src)
+        for lie in range(6):
+            for shift in (0, 1):
+                reqs.append("provelie %d %x %d %s" % (lie, 1 + rng.below(1000), shift, pl))
+                tags.append("expect-reject:uncovered-evaluation-%s-%s" % (["a_w", "b_w", "d_w", "q_c", "q_l", "q_r"][lie], "shifted-powers" if shift else "kept-powers"))
+        reqs.append("provelie 9 0 0 %s" % pl); tags.append("expect-ok:lying-prover-control")
+    ans = ctx.model(reqs)
+    for tg, a in zip(tags, ans):
+        d = dict(t.split("=", 1) for t in a.split() if "=" in t)
+        if not all(k in d for k in ("proof", "pis", "x", "vbytes")):
+            ctx.violation("machinery:provelie", {"why": "the lying prover did not answer", "output": a[:200]}, no_input=True)
+            continue
+        out.append("%s verify 3 %s %s %s %s" % (tg, d["x"], d["vbytes"], d["pis"], d["proof"]))
+    return out
+
+
 def labels():
     return [("plonk", b"plonk"), ("plonl", b"plonl"), ("Plonk", b"Plonk"), ("plon", b"plon"), ("plonk0", b"plonk\x00"), ("empty", b"")]
 
